@@ -2,6 +2,7 @@ import RtcModel.C15Rtp
 import RtcModel.C15Ext
 import RtcModel.C15Rtcp
 import RtcModel.C15NackBuf
+import RtcModel.C15Apt
 import RtcModel.Drv.Util
 namespace RtcModel.Drv.C15
 open RtcModel.C15 RtcModel.Drv
@@ -126,7 +127,9 @@ def showRtcps (ps : List Rtcp) : String := showList (ps.map showRtcp) " "
 
 def bufOp? (s : String) : Option BufOp :=
   match s.splitOn ":" with
-  | ["s", q, t] => do some (.push (← u16? q) (← nat? t))
+  | ["s", q, t] => do some (.sent 7 (← u16? q) (← nat? t))     -- the harness' primary stream has SSRC 7
+  | ["x", a, q, t] => do some (.sent (← u32? a) (← u16? q) (← nat? t))
+  | ["r", a] => do some (.setRtx (← u32? a))
   | ["q", t, qs] => do some (.query (← nat? t) (← mapM? u16? (listOf qs ";")))
   | _ => none
 
@@ -142,6 +145,17 @@ def gapPkt? (s : String) : Option (UInt32 × UInt16) :=
 def showGapOut : Option (List UInt16) → String
   | none => "n"
   | some xs => "k" ++ showList (xs.map (toString ·.toNat)) ";"
+
+def attr? (s : String) : Option (Bytes × Option Bytes) :=
+  match s.splitOn "=" with
+  | [k] => do some (← unhex k, none)
+  | [k, v] => do some (← unhex k, some (← unhex v))
+  | _ => none
+
+/-- insertion sort by RTX payload type, for a canonical rendering of the map -/
+def insertPt (x : UInt8 × UInt8) : List (UInt8 × UInt8) → List (UInt8 × UInt8)
+  | [] => [x]
+  | y :: ys => if x.1.toNat ≤ y.1.toNat then x :: y :: ys else y :: insertPt x ys
 
 /-! ### dispatch -/
 
@@ -176,7 +190,9 @@ def handle (stream : String) (args : List String) : String :=
   | "rtp_marshal", [t] =>
     match pkt? t with
     | none => "bad-pkt"
-    | some p => showRes hex (marshalPacket p)
+    | some p =>
+      -- `marshal_into` skips `validate` and always produces the bytes
+      s!"{showRes hex (marshalPacket p)} into:{hex (writeHeader p.hdr (p.padLen != 0) ++ p.payload ++ List.replicate p.padLen.toNat p.padLen)}"
   | "ext_get", [e, id] =>
     match ext? e, u8? id with
     | some ex, some i =>
@@ -214,6 +230,27 @@ def handle (stream : String) (args : List String) : String :=
     match pkt? t, u32? ssrc, u8? pt with
     | some p, some s, some y => (match unwrapRtx p s y with | none => "none" | some q => "some " ++ showPkt q)
     | _, _, _ => "bad-args"
+  | "apt", [hx] =>
+    match unhex hx with
+    | none => "bad-hex"
+    | some bs => (match parseApt bs with | none => "none" | some v => s!"some:{v.toNat}")
+  | "aptmap", toks =>
+    match mapM? attr? toks with
+    | none => "bad-args"
+    | some attrs =>
+      showList (((extractApt attrs []).foldr insertPt []).map fun (a, b) => s!"{a.toNat}:{b.toNat}") ";"
+  | "is_rtcp", [hx] =>
+    match unhex hx with
+    | none => "bad-hex"
+    | some bs => b01 (isRtcp bs)
+  | "osn", [hx] =>
+    match unhex hx with
+    | none => "bad-hex"
+    | some bs => (match decodeOsn bs with | none => "none" | some v => s!"some:{v.toNat}:{hex (encodeOsn v)}")
+  | "rtx_alloc", [us] =>
+    match mapM? u8? (listOf us ";") with
+    | none => "bad-args"
+    | some used => (match allocRtxPt used with | none => "none" | some v => s!"some:{v.toNat}")
   | "nackbuf", mx :: ops =>
     match nat? mx, mapM? bufOp? ops with
     | some m, some os => " ".intercalate ((bufRun (NackBuf.new m) os).map showBufOut)
